@@ -170,9 +170,10 @@ def run(chk, replay=None):
     S = L.Session(exe, "c10_driver")
 
     cases = []      # (kind, cpp line, model line or None, what)
-    if replay:
-        r = json.load(open(replay))["replay"]
-        cases.append((r.get("kind", "csv"), r["line"], None if r.get("kind") == "xrff" else r["line"], "replay"))
+    rp = json.load(open(replay)).get("replay", {}) if replay else {}
+    if "line" in rp:          # a concrete failing input: run exactly this request again
+        k = rp.get("kind", rp["line"].split()[0])
+        cases.append((k, rp["line"], None if k == "xrff" else rp["line"], "replay"))
     else:
         cdir = os.path.join(C.ROOT, "corpus", "C10")
         if os.path.isdir(cdir):
